@@ -301,3 +301,18 @@ func hookWorkers() int {
 	}
 	return 0
 }
+
+// registerAfterPriorCalls registers "<name>.after-prior-calls": the scenario <name> run after one of the kinds
+// of prior activity of pollute(); to be explored by a single goroutine.
+func registerAfterPriorCalls(name string) string {
+	full := name + ".after-prior-calls"
+	Scenarios[full] = func() (choice.Scenario, func() any) {
+		inner, newLocal := Scenarios[name]()
+		return func(c *choice.Ctx) {
+			k := 1 + c.Choose("prior-activity", len(polluteNames)-1)
+			pollute(k)
+			inner(c)
+		}, newLocal
+	}
+	return full
+}
